@@ -118,6 +118,20 @@ decreasing_by omega
 def slice (site : String) (ws : List Nat) (a b : Nat) : Out (List Nat) :=
   if a ≤ b ∧ b ≤ ws.length then .ok ((ws.take b).drop a) else .panic site
 
+/-- src: rich_structure.rs:RichStructure::try_from, everything after the shadowing
+`let image = image.get(..(e_lfanew / 4) as usize)`; `img` is that truncated slice. -/
+def parseArea (img : List Nat) : Out RichS :=
+  skipPad img img.length >>= fun e =>
+  idx "rich_structure.rs:55 image[end - 2]" img (e - 2) >>= fun m =>
+  if m ≠ RICH then .err .badMagic else
+  idx "rich_structure.rs:58 image[end - 1]" img (e - 1) >>= fun x =>
+  let dx := DANS ^^^ x
+  psub "rich_structure.rs:62 end - 6" e 6 >>= fun s0 =>
+  findStart img x dx s0 >>= fun s =>
+  slice "rich_structure.rs:75 &image[..start]" img 0 s >>= fun dosStub =>
+  slice "rich_structure.rs:76 &image[start..end]" img s e >>= fun im =>
+  .ok ⟨dosStub, im⟩
+
 -- src: rich_structure.rs:RichStructure::try_from
 def tryFrom (image : List Nat) : Out RichS :=
   match image[15]? with                       -- image.get(15).ok_or(Invalid)
@@ -125,18 +139,7 @@ def tryFrom (image : List Nat) : Out RichS :=
   | some eLfanew =>
     let n := eLfanew / 4                      -- (e_lfanew / 4) as usize
     if n > image.length then .err .invalid    -- image.get(..n).ok_or(Invalid)
-    else
-      let img := image.take n
-      skipPad img img.length >>= fun e =>
-      idx "rich_structure.rs:55 image[end - 2]" img (e - 2) >>= fun m =>
-      if m ≠ RICH then .err .badMagic else
-      idx "rich_structure.rs:58 image[end - 1]" img (e - 1) >>= fun x =>
-      let dx := DANS ^^^ x
-      psub "rich_structure.rs:62 end - 6" e 6 >>= fun s0 =>
-      findStart img x dx s0 >>= fun s =>
-      slice "rich_structure.rs:75 &image[..start]" img 0 s >>= fun dosStub =>
-      slice "rich_structure.rs:76 &image[start..end]" img s e >>= fun im =>
-      .ok ⟨dosStub, im⟩
+    else parseArea (image.take n)
 
 /-- The dwords of a byte buffer as `Pe::rich_structure` sees them:
 `slice::from_raw_parts(image.as_ptr() as *const u32, image.len() / 4)` on a little-endian machine. -/
